@@ -614,14 +614,18 @@ Definition wstep (k : nat) (s : estate) (c : choice) : option (estate * list evt
     | WDial, CDial true => Some (put (mkWk WTrigger (w_loop w) (w_opened w) (w_res w)) s, [])
     | WDial, CDial false => Some (put (mkWk WDone (w_loop w) (w_opened w) (w_res w + 1)) s, [(t, KResult false)])
     | WTrigger, CTrig fails =>
-        let cid := e_next s in
-        if fails then
-          if loop_pclosed s (w_loop w)
-          then Some (set_next (put (mkWk WDone (w_loop w) (w_opened w) (w_res w + 1))
-                                   (trigger s (w_loop w) (TReg cid (OWorker k)))) (cid + 1), [(t, KResult false)])
-          else None
-        else
-          Some (set_next (put (mkWk WWait (w_loop w) (w_opened w) (w_res w)) (trigger s (w_loop w) (TReg cid (OWorker k)))) (cid + 1), [])
+        match get_loop s (w_loop w) with
+        | None => None
+        | Some l =>
+          let cid := e_next s in
+          if fails then
+            if l_pclosed l
+            then Some (set_next (put (mkWk WDone (w_loop w) (w_opened w) (w_res w + 1))
+                                     (trigger s (w_loop w) (TReg cid (OWorker k)))) (cid + 1), [(t, KResult false)])
+            else None
+          else
+            Some (set_next (put (mkWk WWait (w_loop w) (w_opened w) (w_res w)) (trigger s (w_loop w) (TReg cid (OWorker k)))) (cid + 1), [])
+        end
     | WWait, CNone =>
         if w_opened w then Some (put (mkWk WDone (w_loop w) true (w_res w + 1)) s, [(t, KResult true)]) else None
     | _, _ => None
@@ -718,7 +722,7 @@ Fixpoint shut_index (q : list task) : option nat :=
 
 Definition loop_measure (l : loop) : nat :=
   match l_pc l with
-  | LIdle => 0
+  | LIdle => 3
   | LPoll => 3 + List.length (l_conns l)
   | LClosing => 2 + List.length (l_conns l)
   | LTurnOff => 1
@@ -727,7 +731,9 @@ Definition loop_measure (l : loop) : nat :=
 
 Definition r_measure (s : estate) : nat :=
   match e_r s with
-  | R0 | RBooted _ | RStarted => 0
+  | R0 => 11 + List.length (e_loops s)
+  | RBooted _ => 10 + List.length (e_loops s)
+  | RStarted => 9 + List.length (e_loops s)
   | RServing => 8 + List.length (e_loops s)
   | RCancelled => 7 + List.length (e_loops s)
   | RNotify k => 6 + (List.length (e_loops s) - k)
@@ -738,7 +744,7 @@ Definition r_measure (s : estate) : nat :=
   | RReturned => 0
   end.
 
-Definition t_measure (s : estate) : nat := match e_t s with TRun => 1 | _ => 0 end.
+Definition t_measure (s : estate) : nat := match e_t s with TExited => 0 | _ => 1 end.
 
 Definition measure (s : estate) : nat :=
   r_measure s + fold_right (fun l a => loop_measure l + a)%nat O (e_loops s) + loop_measure (e_ing s) + t_measure s.
@@ -746,10 +752,7 @@ Definition measure (s : estate) : nat :=
 (* the steps by which the engine itself carries a shutdown forward *)
 Definition is_progress (s : estate) (t : tid) (c : choice) : bool :=
   match t, c with
-  | TR, CNone => match e_r s with
-                 | RServing | RCancelled | RNotify _ | RWait | RClosePollers | RStoreInsd | RReturn => true
-                 | _ => false
-                 end
+  | TR, CNone => true
   | TL i, CNone => true
   | TL i, CRun k _ => match get_loop s i with
                       | Some l => match nth_error (l_q l) k with Some TShut => true | _ => false end
